@@ -47,6 +47,7 @@ type World struct {
 	execs       map[int]int
 	srvConnN    int
 	srvCancel   map[int]context.CancelFunc
+	srvRemote   map[int]string // remote address of each accepted connection (the library labels its goroutines with it)
 	clients     map[string]*Client
 	started     map[int]bool
 	ended       map[int]bool
@@ -130,6 +131,10 @@ func NewWorld(rec *Recorder, reverse bool, srvOpts ...jsonrpc.ServerOption) (*Wo
 		isWS := strings.Contains(strings.ToLower(r.Header.Get("Connection")), "upgrade")
 		if isWS {
 			w.srvCancel[n] = cancel
+			if w.srvRemote == nil {
+				w.srvRemote = map[int]string{}
+			}
+			w.srvRemote[n] = r.RemoteAddr
 		}
 		w.mu.Unlock()
 		w.Srv.ServeHTTP(rw, r.WithContext(ctx))
